@@ -27,6 +27,16 @@ CLAIMED = {
         "Theorems for every ordered pair of number kinds and all values (every double bit pattern): a+b = b+a and a*b = b*a through Number methods, NaN absorbs every operation, the infinity rules (oo + -oo, 0*oo, sign rule, oo/oo), float-never-exact (guarded, with the refuted class RealDouble * Integer 0), Basic-level mul commutativity, Basic-level add commutativity guarded (refuted: zero shortcut with a float operand). Tied exhaustively over all ordered pairs of a 43-value palette x {add, sub, mul, div, pow} through Number methods and Basic add/mul.",
         "Trusted: Coq kernel; Flocq's binary64 as the meaning of IEEE arithmetic (Reals axioms reported); std::pow / libgcc complex division not modelled (skipped in correspondence, oracles still run); known findings listed by key.",
         "7 (C06)"),
+    "C19": (
+        "Rocq proof over an executable model of the cereal portable-binary codec of serialize-cereal.h (encoder and decoder on labelled DAGs, id table, both byte orders, DenseMatrix) + byte-exact cross round trips against the rebuilt library",
+        "Unbounded theorems: for every labelled DAG of serialisable nodes (any sharing, either byte order) decode(encode w) returns the same expression and the same labelling (shared subexpressions restored), per-node payload round trips (decimal integer strings, canonical rationals, double bit patterns, containers in container order), DenseMatrix round trip. Tied every run by decode_model(dumps_impl(e)) = loads_impl, loads_impl(encode_model(e)) = decode_model, and encode_model(decode_model(B)) = B byte for byte on library streams.",
+        "Trusted: Coq kernel; extraction; hand transcription of the save/load overloads validated by byte-exact correspondence (testing); classes outside the model (ImageSet, ConditionSet, polynomials, Tuple) by library oracle only; known finding (listed): URatPoly dumps but does not load.",
+        "7 (C19)"),
+    "C20": (
+        "Rocq proof of totality/typing of the modelled decoder on arbitrary byte lists + correspondence on field-aware mutations of valid dumps + staged crash oracle on the library",
+        "Unbounded theorems for EVERY byte list: the decoder returns an expression or an error (never out of fuel with fuel = length+1, never reads out of range), every decoded node consumes input, more fuel never changes a result, and every decoded tree is well-typed (Boolean arguments where Booleans are required, Sets where sets are required, Numbers at interval ends, no empty And/Or/Xor/Union/Piecewise/Max/Min); full canonical form of decoded trees is refuted by witnesses that the library loads without failing later operations. Memory safety of the C++ itself is outside the theorem: the library side is exercised on mutated streams in forked children with staged str/hash/compare/eval after loads.",
+        "Trusted: as C19; ALLOC_LIMIT guard assumes the driver's address-space limit; known findings (listed): stack overflow on extremely deep nesting.",
+        "7 (C20)"),
     "C21": (
         "Rocq proof over an executable model of ODictWrapper / UIntDict (Kronecker substitution with its bit budget, eval_bit, signed-digit decoding) / URatDict / divides_upoly / eval / diff + exact correspondence of coefficient maps",
         "Unbounded theorems against schoolbook arithmetic on coefficient lists over Z and Q: add, sub, neg, generic dictionary product, Kronecker product UIntDict::mul = schoolbook product for ALL integer polynomials (only the unsigned-int limits deg a + deg b < 2^32 and bit budget < 2^32 as hypotheses; fuel sufficiency and zero-polynomial cases included), pow incl. exponent 0, divides, eval, diff, degree/coefficient queries. Tied by comparing coefficient maps exactly on generated polynomials straddling the Kronecker threshold; from_basic/as_symbolic round trip by correspondence and oracle.",
